@@ -739,6 +739,25 @@ fn crowd(wave_size: usize, waves: usize, seed: u64) -> Value {
     let mut mismatches: Vec<Value> = vec![];
     let mut total = 0u64;
     let mut panics = 0u64;
+    // a long map with two differently ill-typed elements: the failure reported is that of the first one,
+    // deterministically (whatever the library does inside to get through 8192 elements)
+    {
+        let mut items: Vec<Value> = (0..8192).map(|i| json!({"v": i})).collect();
+        items[4095] = json!({"v": "n/a"});
+        for it in items.iter_mut().skip(4096) {
+            *it = json!({"v": true});
+        }
+        let big = Rcvar::new(var_of(&json!({"items": items})));
+        for rep in 0..12 {
+            for text in ["map(&abs(v), items)", "items[*].abs(v)", "sort_by(items, &abs(v))", "max_by(items, &abs(v))"] {
+                let g = fp(&jmespath::compile(text).and_then(|e| e.search(&big)));
+                total += 1;
+                if !(g.starts_with("err:") && g.contains("string") && !g.contains("boolean")) && mismatches.len() < 6 {
+                    mismatches.push(json!({"mode": "crowd", "expression": text, "repetition": rep, "expected": "the invalid-type error of element 4095 (a string)", "observed": g.chars().take(200).collect::<String>()}));
+                }
+            }
+        }
+    }
     for w in 0..waves {
         let base = 1_700_000_000_000_000_000u64 + seed * 1_000_000 + (w as u64) * 1000;
         let shared = Rcvar::new(var_of(&json!({"items": (0..40u64).map(|i| json!({"id": i, "ts": (base + i * 7).to_string()})).collect::<Vec<_>>()})));
